@@ -6,11 +6,16 @@
 uint32_t g256_H[8];
 size_t g256_k, g256_kk, g256_j, g256_i, g256_z;
 uint8_t g256_rec;
+/* models/hash_memcpy.c: registered block buffer and observed index */
+extern uint8_t * g_mc_buf;
+extern size_t g_mc_obs;
 /* arbitrary ghost choices + arbitrary trace prefix */
-#define G256_HAVOC() do { \
+#define G256_HAVOC() do { g_mc_buf = NULL; \
+ \
 	IN(size_t, gk); IN(size_t, gkk); IN(size_t, gj); IN(size_t, gi); IN(size_t, gz); IN(uint8_t, grec); \
 	__CPROVER_assume(gk < ((size_t)1 << 60)); \
 	g256_k = gk; g256_kk = gkk; g256_j = gj; g256_i = gi; g256_z = gz; g256_rec = grec; \
 	__CPROVER_assume(g256_j < 64 && g256_i < 32 && g256_z < sizeof(SHA256_CTX)); \
+	g_mc_obs = g256_j; \
 } while (0)
 #endif
